@@ -1,13 +1,35 @@
 /-
-Oracle ops for the `v1` family.  Owned by the slice that models it; see AGENT_GUIDE.md.
+Oracle ops for the `v1` family (slice C09): the models of v1's own pure code.
+
+  v1 htmlescape <hex>      → hex of appendHTMLEscape(nil, src)
+  v1 unescape <hex>        → hex of the inverse used by the meaning-preservation theorem
+  v1 valid <hex>           → 0|1  (v1.Valid)
+  v1 trailingws <hex>      → hex of the trailing JSON whitespace of src (appendIndent's rule)
+  v1 blank <hex>           → 0|1  (prefix/indent consist of spaces and tabs only)
 -/
 import JsonV.Oracle.Util
+import JsonV.Model.V1
 
 namespace JsonV.Oracle.V1
-open JsonV JsonV.Oracle
+open JsonV JsonV.Oracle JsonV.Model.V1
 
 def handle (op : String) (args : List String) : String :=
   match op, args with
+  | "htmlescape", [h] => match bytesOfHex h with
+    | some b => hexOfBytes (htmlEscape b)
+    | none => badArgs
+  | "unescape", [h] => match bytesOfHex h with
+    | some b => hexOfBytes (unescape b)
+    | none => badArgs
+  | "valid", [h] => match bytesOfHex h with
+    | some b => boolStr (valid b)
+    | none => badArgs
+  | "trailingws", [h] => match bytesOfHex h with
+    | some b => hexOfBytes (trailingWs b)
+    | none => badArgs
+  | "blank", [h] => match bytesOfHex h with
+    | some b => boolStr (isBlank b)
+    | none => badArgs
   | _, _ => "ERR unimplemented"
 
 end JsonV.Oracle.V1
